@@ -49,7 +49,10 @@ func (w *World) callModel() *callModel {
 		}
 		return cm.core.inline(caller, callee)
 	}
-	cm.paths, cm.ok = walkPathsUnrolled(cm.fn, nil, inline, 400000)
+	// (depth: a method value picked by an if, the function it stands for, a shared loop, a callback handed to that loop)
+	pw := &pathWalker{inline: inline, unroll1: true, maxPaths: 400000, maxDepth: 6}
+	pw.walk(cm.fn)
+	cm.paths, cm.ok = pw.paths, !pw.overflow
 	return cm
 }
 
